@@ -452,6 +452,26 @@ fn add_valid_condition(rng: &mut Rng, p: &GenParams, d: &mut Draft, i: usize, ta
             let mut recv = vec![mode_atom, Sx::atom(&msg)];
             recv.extend(attrs(&d.spends[i], mode >> 3));
             d.spends[i].conds.push(cond(&[66], &send));
+            // mode confusion: the receiver names the sender under a DIFFERENT mode whose committed
+            // bytes have the same layout (parent / puzzle / coin id are all one 32-byte atom;
+            // parent+amount / puzzle+amount likewise) and supplies exactly the bytes the sender's own
+            // mode commits to. Only the mode tag distinguishes the two keys, so the rules see an
+            // unmatched pair; an implementation whose message key forgets the mode would match them.
+            let src = mode >> 3;
+            let confusable: &[u8] = match src {
+                4 | 2 | 7 => &[4, 2, 7],
+                5 | 3 => &[5, 3],
+                _ => &[],
+            };
+            if !confusable.is_empty() && rng.chance(1, 6) {
+                let other = *rng.pick(&confusable.iter().copied().filter(|m| *m != src).collect::<Vec<u8>>());
+                let mode2 = (other << 3) | (mode & 7);
+                let mut recv2 = vec![int_atom(u64::from(mode2)), Sx::atom(&msg)];
+                recv2.extend(attrs(&d.spends[i], src)); // bytes of the sender's real mode
+                d.spends[j].conds.push(cond(&[67], &recv2));
+                tags.push("defect:msg-mode-confusion".into());
+                return;
+            }
             match rng.below(12) {
                 0 => {} // unmatched
                 1 => {
@@ -607,7 +627,7 @@ pub fn boundary_int_atom(rng: &mut Rng) -> Sx {
 
 fn apply_defect(rng: &mut Rng, p: &GenParams, b: &mut ABundle) {
     let ns = b.spends.len();
-    let kind = rng.below(30);
+    let kind = rng.below(38);
     let tag: String;
     match kind {
         0 => {
@@ -742,6 +762,88 @@ fn apply_defect(rng: &mut Rng, p: &GenParams, b: &mut ABundle) {
             let op = *rng.pick(&[61u8, 63, 64, 65]);
             b.spends[i].conds.push(cond(&[op], &[Sx::atom(&rng.bytes32())]));
             tag = "dangling-assert".into();
+        }
+        18 if ns > 0 => {
+            // announcement of one kind asserted as the other kind (same id bytes)
+            let i = rng.usize(ns);
+            let j = rng.usize(ns);
+            let msg = gen_msg(rng);
+            let (coin_id, ph) = (b.spends[i].coin_id(), b.spends[i].puzzle_hash);
+            if rng.bool() {
+                b.spends[i].conds.push(cond(&[60], &[Sx::atom(&msg)]));
+                b.spends[j].conds.push(cond(&[63], &[Sx::atom(&sha256(&[&coin_id, &msg]))]));
+            } else {
+                b.spends[i].conds.push(cond(&[62], &[Sx::atom(&msg)]));
+                b.spends[j].conds.push(cond(&[61], &[Sx::atom(&sha256(&[&ph, &msg]))]));
+            }
+            tag = "announcement-kind-confusion".into();
+        }
+        19 if ns > 0 => {
+            // concurrent-spend assertion naming a puzzle hash, or the reverse
+            let i = rng.usize(ns);
+            let j = rng.usize(ns);
+            if rng.bool() {
+                let ph = b.spends[j].puzzle_hash;
+                b.spends[i].conds.push(cond(&[64], &[Sx::atom(&ph)]));
+            } else {
+                let id = b.spends[j].coin_id();
+                b.spends[i].conds.push(cond(&[65], &[Sx::atom(&id)]));
+            }
+            tag = "concurrent-kind-confusion".into();
+        }
+        20 if ns > 0 => {
+            // self-assertion naming another attribute of the same coin
+            let i = rng.usize(ns);
+            let (id, parent, ph) = (b.spends[i].coin_id(), b.spends[i].parent, b.spends[i].puzzle_hash);
+            let (op, v) = *rng.pick(&[(70u8, parent), (70, ph), (71, id), (71, ph), (72, id), (72, parent)]);
+            b.spends[i].conds.push(cond(&[op], &[Sx::atom(&v)]));
+            tag = "self-assert-attribute-confusion".into();
+        }
+        21 if ns > 0 => {
+            // a coin whose parent is spent in this bundle but which that parent does NOT create
+            // (amount off by one / other puzzle hash): not ephemeral
+            let i = rng.usize(ns);
+            let k = rng.usize(NUM_PUZZLES);
+            let ph = puzzle(k).tree_hash();
+            let amount = 1 + rng.below(1000);
+            let parent = b.spends[i].coin_id();
+            let near = if rng.bool() { (ph, amount + 1) } else { (pool_hash(rng, 0x63), amount) };
+            b.spends[i].conds.push(cond(&[51], &[Sx::atom(&near.0), int_atom(near.1)]));
+            let mut conds = vec![];
+            if rng.bool() {
+                conds.push(cond(&[76], &[]));
+            } else {
+                conds.push(cond(&[82], &[int_atom(0)]));
+            }
+            b.spends.push(ASpend {
+                parent,
+                puzzle_idx: k,
+                puzzle_hash: ph,
+                amount,
+                amount_atom: int_atom(amount),
+                parent_atom: Sx::atom(&parent),
+                puzzle_hash_atom: Sx::atom(&ph),
+                conds,
+                cond_term: Sx::nil(),
+                spend_ext: Sx::nil(),
+                fields: 4,
+            });
+            tag = "near-ephemeral".into();
+        }
+        22 if ns > 0 => {
+            // message pair whose texts differ in one byte
+            let i = rng.usize(ns);
+            let j = rng.usize(ns);
+            let mut msg = gen_msg(rng);
+            if msg.is_empty() {
+                msg.push(7);
+            }
+            let mut msg2 = msg.clone();
+            let at = rng.usize(msg2.len());
+            msg2[at] ^= 1;
+            b.spends[i].conds.push(cond(&[66], &[int_atom(0), Sx::atom(&msg)]));
+            b.spends[j].conds.push(cond(&[67], &[int_atom(0), Sx::atom(&msg2)]));
+            tag = "message-text-near-miss".into();
         }
         _ if ns > 0 => {
             // structural mutation of one condition
